@@ -2,7 +2,7 @@ import Solvor.Common.Proto
 import Solvor.Cp.Model
 /-! Cp: line-protocol handler. One request line in, one reply line out.
 
-request `["case", vars, cons, hints, limit, implSols, cnf, assumptions, satModels, litmap, mode]`
+request `["case", vars, cons, hints, limit, implSols, cnf, assumptions, satModels, litmap, mode, hidden]`
   vars        : `[[lb, ub], …]`
   cons        : constraints, see `parseCon`
   hints       : `[[var, value], …]` (known names only, in dict order)
@@ -14,11 +14,13 @@ request `["case", vars, cons, hints, limit, implSols, cnf, assumptions, satModel
   litmap      : per variable `[[value, boolean], …]` as in `IntVar.bool_vars`
   mode        : bit 0 = projected enumeration of `cnf`, bit 1 = run the DFS mirror,
                 bit 2 = return the mirror clause list
+  hidden      : indices of variables declared without a name (`_v<k>`, not part of results)
 reply `[sols, hintSols, implChecks, mirrorCnf, chooseSat, dfsSols, cnfInfo]`
   sols       : every solution of the model (verified enumerator `solutions`)
   hintSols   : those compatible with the effective (in-domain) hints
-  implChecks : per implementation assignment `0` ok, `1` not one in-domain value per variable,
-               `2+k` constraint `k` violated (verified evaluator `check`)
+  implChecks : per implementation assignment `0` ok, `1` not one in-domain value per named variable,
+               `2+k` constraint `k` violated (verified evaluator `check`), `1000` (hidden variables
+               present) the values do not extend to a solution
   mirrorCnf  : `encodeModel` (mirror of the repaired encoder) or `null`
   chooseSat  : `_choose_solver` picks SAT
   dfsSols    : solutions of the DFS mirror (repaired), or `null`
@@ -67,33 +69,39 @@ def parsePairs (v : Val) : Option (List (Nat × Int)) := do
 def parseSol (v : Val) : Option (List (Option Int)) := do
   (← v.toArr?).mapM (Val.toOpt? Val.toInt?)
 
-def checkImpl (M : Model) (s : List (Option Int)) : Int :=
-  if s.any Option.isNone then 1 else
-  let a : Asg := s.map (·.getD 0)
-  if !(decide (InDom a M.vars)) then 1 else
-  match M.cons.zipIdx.find? fun p => !(check a p.1) with
-  | some p => 2 + (p.2 : Nat)
-  | none => 0
+def checkImpl (M : Model) (hidden : List Nat) (sols : List Asg) (s : List (Option Int)) : Int :=
+  -- named variables need a value, hidden (unnamed) ones must not appear in the result
+  if s.length != M.vars.length then 1 else
+  if s.zipIdx.any (fun p => p.1.isNone != hidden.contains p.2) then 1 else
+  if hidden.isEmpty then
+    let a : Asg := s.map (·.getD 0)
+    if !(decide (InDom a M.vars)) then 1 else
+    match M.cons.zipIdx.find? fun p => !(check a p.1) with
+    | some p => 2 + (p.2 : Nat)
+    | none => 0
+  else
+    -- the returned values must extend (on the hidden variables) to a solution of the model
+    if sols.any (fun a => (a.zip s).all fun q => match q.2 with
+        | some v => q.1 == v
+        | none => true) then 0 else 1000
 
 def effHints (vars : List VarDecl) (hints : List (Nat × Int)) : List (Nat × Int) :=
   hints.filter fun h => match vars[h.1]? with
     | some d => decide (d.lb ≤ h.2) && decide (h.2 ≤ d.ub)
     | none => false
 
-def handle (line : String) : String :=
-  match request line with
-  | some ("case", [vars, cons, hints, limit, impl, cnf, assum, smods, litmap, mode]) =>
+def handleCase (vars cons hints limit impl cnf assum smods litmap mode hidden : Val) : String :=
     match parseVars vars, (cons.toArr?.bind fun l => l.mapM parseCon), parsePairs hints, limit.toNat?,
           (impl.toArr?.bind fun l => l.mapM parseSol), Val.toOpt? Val.toIntss? cnf, assum.toInts?,
-          smods.toNatss?, (litmap.toArr?.bind fun l => l.mapM parsePairs'), mode.toNat? with
+          smods.toNatss?, (litmap.toArr?.bind fun l => l.mapM parsePairs'), mode.toNat?, hidden.toNats? with
     | some vars, some cons, some hints, some limit, some impl, some cnf, some assum, some smods,
-      some litmap, some mode =>
+      some litmap, some mode, some hidden =>
       let M : Model := ⟨vars, cons⟩
       let sols := solutions M
       -- dict semantics of hints: a later hint for the same name replaces the earlier one
       let eff := effHints vars hints
       let hintSols := sols.filter fun a => eff.all fun h => val a h.1 == h.2
-      let checks := impl.map (checkImpl M)
+      let checks := impl.map (checkImpl M hidden sols)
       let dfs : Val := if mode / 2 % 2 == 1 then Val.ofIntss (dfsSolve true M hints limit) else Val.null
       let info : Val := match cnf with
         | none => Val.null
@@ -112,12 +120,19 @@ def handle (line : String) : String :=
       (Val.arr [Val.ofIntss sols, Val.ofIntss hintSols, Val.ofInts checks,
         (if mode / 4 % 2 == 1 then Val.ofIntss (encodeModel M) else Val.null), Val.bool (chooseSat M), dfs,
         info]).render
-    | _, _, _, _, _, _, _, _, _, _ => err "bad arguments"
-  | _ => err "bad request"
+    | _, _, _, _, _, _, _, _, _, _, _ => err "bad arguments"
 where
   parsePairs' (v : Val) : Option (List (Int × Nat)) := do
     (← v.toIntss?).mapM fun
       | [x, b] => if b < 0 then none else some (x, b.toNat)
       | _ => none
+
+def handle (line : String) : String :=
+  match request line with
+  | some ("case", [vars, cons, hints, limit, impl, cnf, assum, smods, litmap, mode]) =>
+    handleCase vars cons hints limit impl cnf assum smods litmap mode (Val.arr [])
+  | some ("case", [vars, cons, hints, limit, impl, cnf, assum, smods, litmap, mode, hidden]) =>
+    handleCase vars cons hints limit impl cnf assum smods litmap mode hidden
+  | _ => err "bad request"
 
 end Solvor.Cp
